@@ -26,9 +26,16 @@ REQUIRED_THEOREMS = [
     "vertices_3d", "edges_normalised", "edges_complete_once", "edge_key_is_unordered_pair", "declared_edges_first",
     "edge_attr_follow", "edge_attr_no_stale_keys", "faces_from_cells", "face_key_is_vertex_multiset", "faces_declared_prefix",
     "faces_per_cell", "owners_spec", "corner_records", "cell_face_records", "class_by_dim", "hard_edges_only_declared",
-    "prepare_cf_on_never_fails", "prepare_cf_off_fails_witness",
+    "prepare_never_fails", "prepare_cf_on_never_fails", "prepare_cf_off_witness", "cell_face_records_meaning",
+    "cell_face_records_complete",
     # P1
     "prepare_idempotent", "prepare_rewrap_prepare", "rewrap_same_class",
+    # round 2: translated control skeleton (Generated/C02Structure.lean) and its bridges
+    "prepare_program_bridge", "prepare_follows_source_structure", "prepare_program_order", "is_valid_bridge",
+    "hard_edges_guard_bridge", "corner_append_bridge", "corner_generation_uses_append_order", "dimensionality_bridge",
+    "instantiate_follows_source_structure", "class_table_bridge", "mesh_init_bridge", "rewrap_follows_mesh_init",
+    # round 2: row container types
+    "prepare_commutes_with_forgetting_row_type", "prepare_depends_on_row_values_only", "prepared_rows_are_lists_or_tuples",
 ]
 TRUSTED = [
     "Lean 4.33.0 kernel; axioms ⊆ {propext, Classical.choice, Quot.sound}",
@@ -36,6 +43,12 @@ TRUSTED = [
     "RawMeshData(mesh), tied to mouette/mesh/mesh_data.py, mesh.py, datatypes/base.py by the container correspondence of this run",
     "translator: cell-face tables of _complete_faces_from_cells, _generate_cell_faces (mesh_data.py) and "
     "_compute_adjacent_cell (volume.py) are read with Python ast (name -> position in the tuple unpacking of the cell)",
+    "translator (vlib/props/c02_structure.py): the control skeleton of prepare(), _prepare_edges.is_valid, the hard_edges block, "
+    "the corner appends, _compute_dimensionality, _instanciate_raw_mesh_data and Mesh.__init__ is read with Python ast into the "
+    "vocabulary of Lemmas/C02Steps.lean, whose interpreters (runProgram, completeEdgesWith, cornerLists, dimBy, runInst, visible) "
+    "are hand-written",
+    "row-typed model prepareR (Lemmas/C02Rows.lean) tied to the code by the K section of the correspondence: type(row) of every "
+    "stored edge/face/cell row for list, tuple and numpy input rows",
     "Python set/dict of key tuples abstracted to lists with membership; numpy int rows abstracted to integer lists "
     "(the row-type independence itself is checked by running every scenario per container type and a query battery)",
     "edge attribute values are ints (one per element); Vec/ndarray vertex rows abstracted to rational lists",
@@ -51,7 +64,8 @@ RULE = ("raw scenarios (points, polylines, manifold polygon surfaces, tet meshes
         "attributes with/without custom default + cell faces declared up front; x {list,tuple,numpy rows, from_arrays, "
         ".obj/.mesh file written by the harness and read by mouette.mesh.load} x "
         "completion switches x {once, constructor twice, prepare again, RawMeshData(mesh) re-wrap (same class / "
-        "instanciate)} x {instanciate with dim None/0..3, direct class}; every container, attribute, corner record and the "
+        "instanciate)} x {instanciate with dim None/0..3, direct class}; every raw scenario is built from list, tuple AND numpy "
+        "rows and all three must match the one model reply, incl. the container type of every stored row; every container, attribute, corner record and the "
         "class are compared with the Lean model; non-trivial = distinct scenario whose construction succeeds and holds at "
         "least one face, cell or declared edge")
 
@@ -250,9 +264,25 @@ def _attr_snap(cont):
     return out
 
 
+def _kind_char(row):
+    import numpy as np
+    return "t" if isinstance(row, tuple) else "l" if isinstance(row, list) else "n" if isinstance(row, np.ndarray) else "?"
+
+
+def _kinds(mesh):
+    """container type of every stored index row (the observable of the row-typed model prepareR)"""
+    k = lambda cont: "".join(_kind_char(r) for r in cont)
+    return ("E" + (k(mesh.edges) if hasattr(mesh, "edges") else "-") + "F" + (k(mesh.faces) if hasattr(mesh, "faces") else "-")
+            + "C" + (k(mesh.cells) if hasattr(mesh, "cells") else "-"))
+
+
+def _kinds_mode(case):
+    return "all" if case["via"] == "raw" else "numpy" if case["via"] == "arrays" else "none"
+
+
 def _snap(mesh):
     import numpy as np
-    s = {"cls": type(mesh).__name__}
+    s = {"cls": type(mesh).__name__, "K": _kinds(mesh)}
     s["V"] = [[Fraction(float(x)) for x in np.asarray(v).ravel()] for v in mesh.vertices]
     if hasattr(mesh, "edges"):
         s["E"] = [[int(x) for x in e] for e in mesh.edges]
@@ -338,11 +368,30 @@ def _run(case, ct=None, via=None):
     return res
 
 
+def _obs_values(r):
+    return r["err"] if r["err"] else _fmt(r["final"])
+
+
+def _obs_kinds(r):
+    return r["first"]["K"] if r["first"] is not None else r["err"]
+
+
+def _ctype_runs(case):
+    """the scenario once per container type of the index rows (raw route), else the single route of the case"""
+    mode = _kinds_mode(case)
+    if mode == "all":
+        return [(ct, _run(case, ct, "raw")) for ct in ("list", "tuple", "numpy")]
+    if mode == "numpy":
+        return [("numpy", _run(case))]
+    return []
+
+
 def impl_observe(case):
-    r = _run(case)
-    if r["err"]:
-        return r["err"]
-    return _fmt(r["final"])
+    """values: containers of the finished mesh for the container type of the case; K: container type of every stored
+    row of the first build, for each input container type (compared with the row-typed model prepareR)"""
+    runs = _ctype_runs(case)
+    ks = "K:" + ",".join(f"{ct}={_obs_kinds(r)}" for ct, r in runs) if runs else "K:-"
+    return _obs_values(_run(case)) + ";" + ks
 
 
 # ------------------------------------------------------------------------------------------------------------
@@ -350,7 +399,7 @@ def impl_observe(case):
 # ------------------------------------------------------------------------------------------------------------
 def model_request(case):
     kind, k = case["how"].split(":")
-    t = ["prep", "1" if case["ce"] else "0", "1" if case["cf"] else "0", "arrays" if case["via"] == "arrays" else "raw", kind, k, case["build"]]
+    t = ["prep", "1" if case["ce"] else "0", "1" if case["cf"] else "0", "arrays" if case["via"] == "arrays" else "raw", kind, k, case["build"], _kinds_mode(case)]
     t += ["V", str(len(case["V"]))]
     for v in case["V"]:
         t += [str(len(v))] + [G.frac(x) for x in v]
@@ -370,7 +419,19 @@ def model_request(case):
     return " ".join(t)
 
 
+def _first_diff(a, b):
+    for x, y in zip(a.split(";"), b.split(";")):
+        if x != y:
+            return f"section differs: model `{x[:160]}` vs implementation `{y[:160]}`"
+    return f"model `{a[:120]}` vs implementation `{b[:120]}`"
+
+
 def compare(case, model, impl):
+    # the same model reply must describe the mesh built from EVERY container type of the index rows
+    mvals = model.rsplit(";K:", 1)[0]
+    for ct, r in _ctype_runs(case):
+        if ct != case["ctype"] and case["via"] == "raw" and _obs_values(r) != mvals:
+            return f"rows given as {ct}: " + (_first_diff(mvals, _obs_values(r)))
     if model == impl:
         return None
     ms, is_ = model.split(";"), impl.split(";")
@@ -487,13 +548,7 @@ def oracle(case):
     if r["err"]:
         if case["via"] == "arrays" and r["err"] == "err:Other(Exception)" and any(max(e) >= nV for e in E):
             return out
-        declared = {_key(f) for f in F}
-        cells_need_faces = bool(C) and not case["cf"] and any(_key(fs) not in declared for c in C for fs in R.cell_face_sets(c))
-        if r["stage"] == "first" and r["err"] == "err:Key" and cells_need_faces:
-            add("C02/raises/cf-off/cell-faces", "with complete_faces_from_cells off, construction of a mesh holding cells raises "
-                "KeyError in _generate_cell_faces (faces of the cells are looked up but were never created)", r["err"])
-        else:
-            add(f"C02/raises/{r['stage']}/{r['err']}/{_ctx(case)}", f"construction ({r['stage']} build, {case['build']}) raised {r['err']} on a valid raw input", r["err"])
+        add(f"C02/raises/{r['stage']}/{r['err']}/{_ctx(case)}", f"construction ({r['stage']} build, {case['build']}) raised {r['err']} on a valid raw input", r["err"])
         return out
     s = r["final"]
     dimc = CLASSES.index(s["cls"])
@@ -591,20 +646,25 @@ def oracle(case):
             add("C02/cell-corners/elem", "cell corner elements are not the cell vertices in element order")
         if s["CC"][1] != [i for i, c in enumerate(C) for _ in c]:
             add("C02/cell-corners/owner", "cell corner owners are not the cells in element order", s["CC"][1][:12])
-        per = [4 if len(c) == 4 else 6 for c in C]
+        # one record per cell-face incidence: an incidence is a face of the cell (4 triangles / 6 quads) that is stored
+        stored = {_key(f) for f in s["F"]}
+        present = [[_key(fs) for fs in R.cell_face_sets(c) if _key(fs) in stored] for c in C]
+        per = [len(pr) for pr in present]
         el, ow = s["CF"]
         if len(el) != sum(per):
             add("C02/cell-faces/count", "not one cell-face record per cell-face incidence", f"{len(el)} vs {sum(per)}")
         else:
             p = 0
             for ic, c in enumerate(C):
-                want = sorted(_key(fs) for fs in R.cell_face_sets(c))
+                want = sorted(present[ic])
                 gotk = sorted(_key(s["F"][i]) if 0 <= i < len(s["F"]) else () for i in el[p:p + per[ic]])
                 if want != gotk:
                     add("C02/cell-faces/elem", "cell-face records of a cell do not point to its faces", f"cell {ic}: {gotk} vs {want}"); break
                 p += per[ic]
         if ow != [i for i, n in enumerate(per) for _ in range(n)]:
             add("C02/cell-faces/owner" + ("/empty" if not ow else ""), "cell-face records do not record their owner cell", f"owners {ow[:12]} for {len(el)} records")
+        if case["cf"] and any(len(pr) != (4 if len(c) == 4 else 6) for pr, c in zip(present, C)):
+            add("C02/cell-faces/incomplete", "with face completion on a cell does not have 4 (tetrahedron) / 6 (hexahedron) cell-face records")
     # ---- class
     kind, k = case["how"].split(":")
     if kind == "inst":
@@ -644,7 +704,7 @@ def classify(case, obs):
     nV = len(case["V"])
     ks = ["kind:" + case["kind"].split("-")[0], "rows:" + _ctx(case), "build:" + case["build"], "how:" + case["how"],
           f"cfg:ce{int(case['ce'])}cf{int(case['cf'])}", "vdim:%d" % case["vdim"]]
-    if obs.startswith("err"): ks.append(obs)
+    if obs.startswith("err"): ks.append(obs.split(";")[0])
     else: ks.append(obs.split(";")[0])
     inv = [e for e in case["E"] if not (e[0] != e[1] and 0 <= e[0] < nV and 0 <= e[1] < nV)]
     if inv: ks.append("edges:some-invalid")
@@ -790,6 +850,8 @@ def translate():
         body += f"def {n} : List (List Nat) := {T.lean_nat_table(tabs.get(n, []))}\n"
     body += "end Mouette.Generated.C02\n"
     T.write_generated("C02Tables", body)
+    from . import c02_structure
+    sites += c02_structure.translate_structure()
     return sites
 
 
@@ -802,7 +864,10 @@ MANIFEST = {
                    "(element, owner) in element order; class = max(dim, highest element); only declared edges are flagged hard; "
                    "prepare is idempotent and stable under re-wrapping. The tet/hex face tables are re-extracted from the source with "
                    "Python ast on every run and the table theorems (tables agree, face i omits vertex i, consistent orientation, hex edges "
-                   "covered twice) are re-checked by decide. The model is tied to the code by an exact container correspondence per "
+                   "covered twice) are re-checked by decide; so is the control skeleton (ordered steps of prepare() and their config guards, the "
+                   "edge validity predicate, the hard_edges guard, corner append argument order, dimensionality chain, "
+                   "_instanciate_raw_mesh_data, Mesh.__init__), each with a bridge theorem to the model. prepare commutes with forgetting "
+                   "the container type (list/tuple/numpy) of index rows and leaves no numpy row. The model is tied to the code by an exact container correspondence per "
                    "container type and a direct oracle including a later-query battery on numpy-built meshes."),
     "level_note": ("Trusted: Lean kernel + propext/Classical.choice/Quot.sound; the hand-written model (checked against the code on the "
                    "scenarios of each run only); the ast translator of the literal tables; Python set/dict semantics."),
